@@ -16,10 +16,11 @@ import tempfile
 import time
 
 VERIF = os.path.dirname(os.path.dirname(os.path.abspath(__file__)))
-LEAN = os.path.join(VERIF, "lean")
+LEAN = os.environ.get("PFF_LEAN_DIR") or os.path.join(VERIF, "lean")   # (a private copy for parallel mutation trials)
 REPO = os.environ.get("PFF_REPO", "/repo")
-EVIDENCE = os.path.join(VERIF, "evidence")
-REPLAY = os.path.join(VERIF, "replay")
+# (the two output folders can be redirected for mutation trials running in parallel: harness/mutate.py)
+EVIDENCE = os.environ.get("PFF_EVIDENCE_DIR") or os.path.join(VERIF, "evidence")
+REPLAY = os.environ.get("PFF_REPLAY_DIR") or os.path.join(VERIF, "replay")
 CORPUS = os.path.join(VERIF, "corpus")
 ALLOWED_AXIOMS = {"propext", "Classical.choice", "Quot.sound"}
 FORBIDDEN = re.compile(r"\b(sorry|admit|native_decide|bv_decide|implemented_by)\b|^\s*axiom\s|\bunsafe\s|maxHeartbeats\s+0\b")
